@@ -11,59 +11,111 @@ def src(rel):
     with open(os.path.join(repo, rel), errors='replace') as f:
         return f.read()
 
+class Missing(Exception):
+    pass
+
+missing = []
+
 def need(text, pat, what, flags=0):
+    """a missing anchor drops the constants of its group from Constants.v (so exactly the Coq files
+    that use them stop compiling, and only the properties resting on those files are affected);
+    it is never replaced by a default"""
     m = re.search(pat, text, flags)
     if not m:
         sys.stderr.write('gen_constants: anchor not found: %s\n' % what)
-        sys.exit(3)
+        missing.append(what)
+        raise Missing(what)
     return m
+
+def group(fn):
+    try:
+        fn()
+    except Missing:
+        pass
 
 consts = []   # (name, coq type, coq value, provenance)
 
 def add(name, val, prov, ty='Z'):
     consts.append((name, ty, val, prov))
 
-strc = src('src/str.c')
-m = need(strc, r'static\s+const\s+size_t\s+buff_inc\s*=\s*(\d+)\s*;', 'str.c buff_inc')
-add('str_buff_inc', m.group(1), 'src/str.c buff_inc')
-ustrc = src('src/ustr.c')
-m = need(ustrc, r'const\s+size_t\s+buff_inc\s*=\s*(\d+)\s*;', 'ustr.c buff_inc')
-add('ustr_buff_inc', m.group(1), 'src/ustr.c buff_inc')
-mb = src('src/mbuff.c')
-m = need(mb, r'static\s+const\s+size_t\s+buff_inc\s*=\s*(\d+)\s*;', 'mbuff.c buff_inc')
-add('mbuff_buff_inc', m.group(1), 'src/mbuff.c buff_inc')
+def _g0():
+    global strc, ustrc, mb, lah, bh
+    strc = src('src/str.c')
+    m = need(strc, r'static\s+const\s+size_t\s+buff_inc\s*=\s*(\d+)\s*;', 'str.c buff_inc')
+    add('str_buff_inc', m.group(1), 'src/str.c buff_inc')
+group(_g0)
 
-lah = src('include/libast.h')
-m = need(lah, r'#\s*define\s+CONFIG_BUFF\s+(\d+)', 'libast.h CONFIG_BUFF')
-add('config_buff', m.group(1), 'include/libast.h CONFIG_BUFF')
+def _g1():
+    global strc, ustrc, mb, lah, bh
+    ustrc = src('src/ustr.c')
+    m = need(ustrc, r'const\s+size_t\s+buff_inc\s*=\s*(\d+)\s*;', 'ustr.c buff_inc')
+    add('ustr_buff_inc', m.group(1), 'src/ustr.c buff_inc')
+group(_g1)
 
-# Jenkins mix: nine lines "x -= y; x -= z; x ^= (w >> n);" translated to data
-m = need(lah, r'#\s*define\s+SPIFHASH_JENKINS_MIX\(a,\s*b,\s*c\)(.*?)\n\}', 'libast.h SPIFHASH_JENKINS_MIX', re.S)
-steps = re.findall(r'(\w)\s*-=\s*(\w)\s*;\s*(\w)\s*-=\s*(\w)\s*;\s*(\w)\s*\^=\s*\(\s*(\w)\s*(<<|>>)\s*(\d+)\s*\)\s*;', m.group(1))
-body = re.sub(r'[\\\s{}]', '', m.group(1))
-rebuilt = ''.join('%s-=%s;%s-=%s;%s^=(%s%s%s);' % st for st in steps)
-if len(steps) != 9 or body != rebuilt or any(not (st[0] == st[2] == st[4]) for st in steps):
-    sys.stderr.write('gen_constants: SPIFHASH_JENKINS_MIX has an unexpected shape\n'); sys.exit(3)
-reg = {'a': 'RA', 'b': 'RB', 'c': 'RC'}
-mix = '[' + ';\n   '.join('(%s, %s, %s, %s, %s, %s)' % (reg[t], reg[s1], reg[s2], reg[w], 'true' if d == '<<' else 'false', amt)
-                        for (t, s1, _, s2, _, w, d, amt) in steps) + ']'
-consts.append(('__raw__', '', 'Inductive reg : Set := RA | RB | RC.', 'register names of the mix'))
-add('jenkins_mix_steps', mix, 'include/libast.h SPIFHASH_JENKINS_MIX: (target, minus1, minus2, xor source, shift left?, amount)',
-    'list (reg * reg * reg * reg * bool * Z)')
+def _g2():
+    global strc, ustrc, mb, lah, bh
+    mb = src('src/mbuff.c')
+    m = need(mb, r'static\s+const\s+size_t\s+buff_inc\s*=\s*(\d+)\s*;', 'mbuff.c buff_inc')
+    add('mbuff_buff_inc', m.group(1), 'src/mbuff.c buff_inc')
 
-bh = src('src/builtin_hashes.c')
-m = need(lah + bh, r'#\s*define\s+BUILTIN_RANDOM_SEED\s+\(*\s*(?:\(\s*spif_uint32_t\s*\))?\s*\(*\s*(0x[0-9a-fA-F]+|\d+)', 'BUILTIN_RANDOM_SEED')
-add('builtin_random_seed', str(int(m.group(1), 0)), 'BUILTIN_RANDOM_SEED')
-m = need(bh, r'seed\s*=\s*\(spif_uint32_t\)\s*(0x[0-9a-fA-F]+)\s*;\s*/\*\s*FNV-1a', 'builtin_hashes.c FNV init')
-add('fnv_init', str(int(m.group(1), 0)), 'src/builtin_hashes.c FNV-1a initial value')
-m = need(bh, r'#ifdef __GNUC__\s*hash \+= ((?:\(hash << \d+\)\s*\+?\s*)+);', 'builtin_hashes.c FNV shift-add')
-add('fnv_shifts', '[' + '; '.join(re.findall(r'<< (\d+)', m.group(1))) + ']', 'src/builtin_hashes.c FNV shift-add form (hash += sum of hash << k)', 'list Z')
-m = need(bh, r'hash \*= \(spif_uint32_t\) (0x[0-9a-fA-F]+);', 'builtin_hashes.c FNV prime')
-add('fnv_prime', str(int(m.group(1), 0)), 'src/builtin_hashes.c FNV prime (non-GNUC branch)')
-m = need(bh, r'hash = \(hash << (\d+)\) \^ \(hash >> (\d+)\) \^ key\[i\];\s*\}\s*return \(hash \^ \(hash >> (\d+)\) \^ \(hash >> (\d+)\)\);', 'builtin_hashes.c rotating')
-add('rotating_shifts', '(%s, %s, %s, %s)' % m.groups(), 'src/builtin_hashes.c rotating hash: <<, >>, final >>, >>', 'Z * Z * Z * Z')
-m = need(bh, r'hash \+= key\[i\];\s*hash \+= \(hash << (\d+)\);\s*hash \^= \(hash >> (\d+)\);\s*\}\s*hash \+= \(hash << (\d+)\);\s*hash \^= \(hash >> (\d+)\);\s*hash \+= \(hash << (\d+)\);', 'builtin_hashes.c one-at-a-time')
-add('oaat_shifts', '(%s, %s, %s, %s, %s)' % m.groups(), 'src/builtin_hashes.c one-at-a-time shifts', 'Z * Z * Z * Z * Z')
+group(_g2)
+
+def _g3():
+    global strc, ustrc, mb, lah, bh
+    lah = src('include/libast.h')
+    m = need(lah, r'#\s*define\s+CONFIG_BUFF\s+(\d+)', 'libast.h CONFIG_BUFF')
+    add('config_buff', m.group(1), 'include/libast.h CONFIG_BUFF')
+
+group(_g3)
+
+def _g4():
+    global strc, ustrc, mb, lah, bh
+    # Jenkins mix: nine lines "x -= y; x -= z; x ^= (w >> n);" translated to data
+    m = need(lah, r'#\s*define\s+SPIFHASH_JENKINS_MIX\(a,\s*b,\s*c\)(.*?)\n\}', 'libast.h SPIFHASH_JENKINS_MIX', re.S)
+    steps = re.findall(r'(\w)\s*-=\s*(\w)\s*;\s*(\w)\s*-=\s*(\w)\s*;\s*(\w)\s*\^=\s*\(\s*(\w)\s*(<<|>>)\s*(\d+)\s*\)\s*;', m.group(1))
+    body = re.sub(r'[\\\s{}]', '', m.group(1))
+    rebuilt = ''.join('%s-=%s;%s-=%s;%s^=(%s%s%s);' % st for st in steps)
+    if len(steps) != 9 or body != rebuilt or any(not (st[0] == st[2] == st[4]) for st in steps):
+        sys.stderr.write('gen_constants: SPIFHASH_JENKINS_MIX has an unexpected shape\n'); missing.append('mix shape'); raise Missing('mix')
+    reg = {'a': 'RA', 'b': 'RB', 'c': 'RC'}
+    mix = '[' + ';\n   '.join('(%s, %s, %s, %s, %s, %s)' % (reg[t], reg[s1], reg[s2], reg[w], 'true' if d == '<<' else 'false', amt)
+                            for (t, s1, _, s2, _, w, d, amt) in steps) + ']'
+    consts.append(('__raw__', '', 'Inductive reg : Set := RA | RB | RC.', 'register names of the mix'))
+    add('jenkins_mix_steps', mix, 'include/libast.h SPIFHASH_JENKINS_MIX: (target, minus1, minus2, xor source, shift left?, amount)',
+        'list (reg * reg * reg * reg * bool * Z)')
+
+group(_g4)
+
+def _g5():
+    global strc, ustrc, mb, lah, bh
+    bh = src('src/builtin_hashes.c')
+    m = need(lah + bh, r'#\s*define\s+BUILTIN_RANDOM_SEED\s+\(*\s*(?:\(\s*spif_uint32_t\s*\))?\s*\(*\s*(0x[0-9a-fA-F]+|\d+)', 'BUILTIN_RANDOM_SEED')
+    add('builtin_random_seed', str(int(m.group(1), 0)), 'BUILTIN_RANDOM_SEED')
+group(_g5)
+
+def _g6():
+    global strc, ustrc, mb, lah, bh
+    m = need(bh, r'seed\s*=\s*\(spif_uint32_t\)\s*(0x[0-9a-fA-F]+)\s*;\s*/\*\s*FNV-1a', 'builtin_hashes.c FNV init')
+    add('fnv_init', str(int(m.group(1), 0)), 'src/builtin_hashes.c FNV-1a initial value')
+    m = need(bh, r'#ifdef __GNUC__\s*hash \+= ((?:\(hash << \d+\)\s*\+?\s*)+);', 'builtin_hashes.c FNV shift-add')
+    add('fnv_shifts', '[' + '; '.join(re.findall(r'<< (\d+)', m.group(1))) + ']', 'src/builtin_hashes.c FNV shift-add form (hash += sum of hash << k)', 'list Z')
+    m = need(bh, r'hash \*= \(spif_uint32_t\) (0x[0-9a-fA-F]+);', 'builtin_hashes.c FNV prime')
+    add('fnv_prime', str(int(m.group(1), 0)), 'src/builtin_hashes.c FNV prime (non-GNUC branch)')
+group(_g6)
+
+def _g7():
+    global strc, ustrc, mb, lah, bh
+    m = need(bh, r'hash = \(hash << (\d+)\) \^ \(hash >> (\d+)\) \^ key\[i\];\s*\}\s*return \(hash \^ \(hash >> (\d+)\) \^ \(hash >> (\d+)\)\);', 'builtin_hashes.c rotating')
+    add('rotating_shifts', '(%s, %s, %s, %s)' % m.groups(), 'src/builtin_hashes.c rotating hash: <<, >>, final >>, >>', 'Z * Z * Z * Z')
+group(_g7)
+
+def _g8():
+    global strc, ustrc, mb, lah, bh
+    m = need(bh, r'hash \+= key\[i\];\s*hash \+= \(hash << (\d+)\);\s*hash \^= \(hash >> (\d+)\);\s*\}\s*hash \+= \(hash << (\d+)\);\s*hash \^= \(hash >> (\d+)\);\s*hash \+= \(hash << (\d+)\);', 'builtin_hashes.c one-at-a-time')
+    add('oaat_shifts', '(%s, %s, %s, %s, %s)' % m.groups(), 'src/builtin_hashes.c one-at-a-time shifts', 'Z * Z * Z * Z * Z')
+
+
+group(_g8)
 
 lines = ['(* GENERATED by tools/gen_constants.py from %s - do not edit *)' % 'the source tree',
          'From Coq Require Import ZArith List String.', 'Import ListNotations.',
@@ -80,6 +132,8 @@ old = None
 if os.path.exists(out):
     with open(out) as f:
         old = f.read()
+if missing:
+    sys.stderr.write('gen_constants: %d anchor(s) missing; their constants are absent from Constants.v\n' % len(missing))
 if old != text:
     with open(out, 'w') as f:
         f.write(text)
